@@ -27,8 +27,14 @@ def nshards(tier):
 def shard(i, n, tier, seed, rec, hb, check=CHECK, reader_of=reader_for):
     pvl = common.import_pvl()
     per = 8000 if tier == "quick" else 120000
-    for dialect in DIALECTS:
-        for j in range(i, per, n):
+    # dialects are interleaved, in an order that changes from case to case:
+    # state shared between encoder/decoder classes of one process must not
+    # leak from one dialect into the next
+    order_rng = random.Random(f"{check}-order-{seed}-{i}")
+    for j in range(i, per, n):
+        order = list(DIALECTS)
+        order_rng.shuffle(order)
+        for dialect in order:
             hb.beat()
             key = f"{check}-{seed}-{dialect}-{j}"
             rng = random.Random(key)
